@@ -252,6 +252,31 @@ def op_line(op, keys):
     raise ValueError(k)
 
 
+def footprint_violations(op, keys, pre, post, wlog, geo):
+    """clusters the call wrote data to that belong (before the call) to an entry outside its footprint"""
+    base, bpc = geo
+    P = keys.path(op[1])
+    allowed_paths = {natl(P), natl(P[:-1])}
+    owner = {}          # cluster -> path of the entry owning it before the call
+    for lst in pre["dirs"].values():
+        for n in lst:
+            f = n.split("/")
+            if f[4] != "-":
+                for c in f[4].split(","):
+                    owner[int(c)] = f[0]
+    bad = []
+    for pos, n in wlog:
+        if pos < base or n == 0:
+            continue
+        first = 2 + (pos - base) // bpc
+        last = 2 + (pos + n - 1 - base) // bpc
+        for c in range(first, last + 1):
+            o = owner.get(c)
+            if o is not None and o not in allowed_paths:
+                bad.append((c, o))
+    return bad[:3]
+
+
 def run_program(cfg, ops, res, device_every=1, stop_after=None):
     """-> (divergences [(step, what, model, impl)], stats, world-closed image)"""
     keys = Keys()
@@ -267,12 +292,17 @@ def run_program(cfg, ops, res, device_every=1, stop_after=None):
     reals = [(real_state(w, keys), device_state(w, keys))]
     results = []
     idx = []
+    wlogs = []
+    pf0 = w.fs.fs
+    geo = (w.off + pf0.get_data_cluster_address(2), pf0.bytes_per_cluster)
     try:
         for i, op in enumerate(ops):
             if stop_after is not None and i >= stop_after:
                 break
+            w.dev.log.clear()
             r = real_op(w.fs, op)
             results.append(r)
+            wlogs.append([(e[1], e[2]) for e in w.dev.log if e[0] == "W"])
             a = drv.ask(op_line(op, keys))
             b = drv.ask("fs dump")
             idx.append((a, b))
@@ -298,7 +328,14 @@ def run_program(cfg, ops, res, device_every=1, stop_after=None):
             divs.append((i, "hypotheses-of-the-theorems", out[ci], "ok"))
             break
     divs.sort(key=lambda d: d[0])
-    stats = {"ops": len(results), "err": {}, "inv_checked": (1 if c0 is not None else 0) + len(checks)}
+    stats = {"ops": len(results), "err": {}, "inv_checked": (1 if c0 is not None else 0) + len(checks), "footprint": []}
+    # C12's premise per primitive: data-area writes of a call go only to clusters of its target, of the target's
+    # parent directory (the root's chain on FAT32) and to clusters that were free before the call
+    for i, op in enumerate(ops[:len(results)]):
+        bad = footprint_violations(op, keys, reals[i][0], reals[i + 1][0], wlogs[i], geo)
+        stats["data_writes"] = stats.get("data_writes", 0) + sum(1 for p_, n_ in wlogs[i] if p_ >= geo[0])
+        if bad:
+            stats["footprint"].append((i, bad))
     for i, (a, b) in enumerate(idx):
         ans = out[a]
         model_res, _, spec_res = ans.partition(" spec=")
@@ -587,6 +624,13 @@ def run(tier):
             res.count("err:" + k, v)
         for o in ops[:stats["ops"]]:
             res.count("op:" + o[0])
+        res.count("data-area writes checked against the footprint", stats.get("data_writes", 0))
+        for step, bad in stats.get("footprint", [])[:1]:
+            sig = "fsmodel:write-outside-footprint|%s" % ops[step][0]
+            if sig not in seen:
+                seen.add(sig)
+                res.fail(["C12", "C02"], sig, "call %d (%s) wrote data to clusters owned by entries outside its footprint: %s"
+                         % (step, ops[step][0], bad), {"cfg": cfg, "ops": ops[:step + 1], "step": step})
         if divs:
             judge(res, cfg, ops, divs, seen)
         return divs
